@@ -193,6 +193,21 @@ theorem rings_filter_spec (cands : List (Option Ring)) (n : Nat) (out : List Rin
     out.length = n ∧ out.Nodup ∧ ∀ r ∈ out, some r ∈ cands :=
   ⟨ringsFilter_length_any h, ringsFilter_nodup h, ringsFilter_subset h⟩
 
+/-- **`_sssr` never crashes**: on a well-formed symmetric graph with a non-empty pruned graph the model of `_sssr(bonds, n)`
+answers `ok …` or `notReached` (the library's `ImplementationError('SSSR count not reached')`), for every `n` — the only
+other exception it can raise is `StopIteration` of `next(rings)` when the candidate generator yields nothing at all.
+(`_ring_scissors`, `_canonic_ring`, `_ring_adjacency`, `_get_unique_chord` inside `_connected_rings` / `_is_condensed_ring`
+are only ever applied where they are defined; merged contours stay duplicate-free rings of ≥ 3 atoms.) -/
+theorem sssr_never_crashes (g : Adj) (hwf : wfAdj g = true) (hsym : symAdj g = true)
+    (hskin : ∀ s, skinGraph g = some s → s ≠ []) (n : Nat) (h : sssrPid g n = .raised) : pidCandidates g = some [] :=
+  sssrPid_raised_only_without_candidates hwf hsym hskin h
+
+/-- the filter stage alone: with at least one candidate, all of them duplicate-free rings of ≥ 3 atoms, `_rings_filter`
+does not raise anything but `ImplementationError` -/
+theorem rings_filter_never_crashes (cands : List (Option Ring)) (hc : ∀ x ∈ cands, ∃ r, x = some r ∧ GoodRing r)
+    (hne : cands ≠ []) (n : Nat) : ringsFilter cands n ≠ .raised :=
+  ringsFilter_no_raise hc hne n
+
 /-- **`_sssr` on any graph**: whenever the model of `_sssr(bonds, n)` returns, it returns `n` pairwise different rings and
 every one of them is a simple cycle of `bonds` -/
 theorem sssr_pid_rings_are_simple_cycles (g : Adj) (hwf : wfAdj g = true) (hsym : symAdj g = true) (n : Nat)
